@@ -105,9 +105,6 @@ func (nds *NumpyDataset) ToColumnSeries(options ...int) (cs *ColumnSeries, err e
 	}
 
 	cs = NewColumnSeries()
-	if len(nds.ColumnData[0]) == 0 {
-		return cs, nil
-	}
 	/*
 		Coerce the []byte for each column into it's native pointer type
 	*/
@@ -158,17 +155,14 @@ func (nmds *NumpyMultiDataset) ToColumnSeriesMap() (csm ColumnSeriesMap, err err
 
 	for tbkStr, idx := range nmds.StartIndex {
 		length := nmds.Lengths[tbkStr]
-		var cs *ColumnSeries
-		if length > 0 {
-			cs, err = nmds.ToColumnSeries(idx, length)
-			if err != nil {
-				return nil, err
-			}
-		} else {
-			cs = NewColumnSeries()
+		// a bucket without rows still has its columns (names and types): convert it like any other
+		// bucket and keep it in the map
+		cs, err := nmds.ToColumnSeries(idx, length)
+		if err != nil {
+			return nil, err
 		}
 		tbk := NewTimeBucketKeyFromString(tbkStr)
-		csm.AddColumnSeries(*tbk, cs)
+		csm[*tbk] = cs
 	}
 	return csm, nil
 }
